@@ -20,6 +20,8 @@ ASSUMPTIONS = [
 
 
 def sig(ev):
+    if ev.get("kind") == "nilenv":
+        return {"kind": "nilenv", "panic": ev["panic"], "err": ev["err"], "leak": ev["b"] != "b unset |"}
     s = {"err": ev["err"], "panic": ev["panic"], "same": ev["same"]}
     # which variables were read an unexpected number of times is the most useful discriminator
     gc = ev.get("getcounts") or {}
@@ -30,12 +32,16 @@ def sig(ev):
 
 
 def desc(ev):
+    if ev.get("kind") == "nilenv":
+        return "two pipelines interpolated with a nil environment, one after the other: the first defines %s in its env block; the second, which only refers to it, got %r (want 'b unset |'), the first %r" % (ev["name"], ev["b"], ev["a"])
     gc = ev.get("getcounts") or {}
     odd = {k: v for k, v in gc.items() if (k.startswith("Q") and v > 0) or (k.startswith("P") and v > 1)}
     return "Interpolate on %s...: err=%s same_over_repeats=%s odd_reads=%s" % (ev["c"]["src"][:300], ev.get("errmsg") or ev["err"], ev["same"], json.dumps(odd)[:200])
 
 
 def to_case(ev):
+    if ev.get("kind") == "nilenv":
+        return {"kind": "nilenv", "name": ev["name"]}
     return {"src": ev["c"]["src"], "repeats": 300 if ev.get("probe") else 64, "env": ev["env"], "strings": ev["strings"], "probe": ev.get("probe", "")}
 
 
